@@ -1054,6 +1054,36 @@ fn misc_public_surface(cfg: &Cfg) -> Result<(), String> {
             z.update_f64(f64::from_bits(0x7ff8_0000_0000_0001));
             want!(z.num_retained() == 2, "update_f64: 0.0 / -0.0 and the NaNs must each be one item (documented canonical form); retained {}", z.num_retained());
             let _ = (s.estimate(), s.theta(), s.is_empty(), s.lg_k());
+            // sampling probabilities over the whole documented range (0, 1]
+            for p in [f32::MIN_POSITIVE, 1e-30, 1e-19, 1e-10, 1e-3, 1.0] {
+                let mut t = ThetaSketch::builder().lg_k(5).sampling_probability(p).build();
+                let _ = (t.estimate(), t.theta(), t.is_empty(), t.is_estimation_mode());
+                for sd in STDS {
+                    let (lo, hi) = (t.lower_bound(sd), t.upper_bound(sd));
+                    want!(lo <= hi, "theta p={p}: bounds {lo} > {hi} before any update");
+                }
+                for i in 0..200u64 {
+                    t.update(i ^ u);
+                }
+                for sd in STDS {
+                    let (lo, hi) = (t.lower_bound(sd), t.upper_bound(sd));
+                    want!(lo <= t.estimate() && t.estimate() <= hi, "theta p={p}: bounds {lo} / {} / {hi}", t.estimate());
+                }
+                for ordered in [false, true] {
+                    let c = t.compact(ordered);
+                    let _ = (c.estimate(), c.theta(), c.is_empty());
+                    for sd in STDS {
+                        let _ = (c.lower_bound(sd), c.upper_bound(sd));
+                    }
+                    for img in [c.serialize(), c.serialize_compressed()] {
+                        let back = CompactThetaSketch::deserialize(&img).map_err(|e| format!("theta p={p}: own image rejected: {e}"))?;
+                        want!(back.num_retained() == c.num_retained() && back.theta64() == c.theta64(), "theta p={p}: round trip retained {} theta {:#x}", back.num_retained(), back.theta64());
+                        for sd in STDS {
+                            let _ = (back.lower_bound(sd), back.upper_bound(sd));
+                        }
+                    }
+                }
+            }
             // the largest documented nominal size: the table starts small and grows on demand
             let mut big = ThetaSketch::builder().lg_k(26).resize_factor(ResizeFactor::X2).build();
             for i in 0..3000u64 {
